@@ -98,7 +98,7 @@ Definition process_client_fixed_header (d : dec) (data : list N) : res (dec * li
     let t := parse_sockaddr (takeN 18 (dropN 18 header)) in
     let app_len := be (takeN 1 (dropN 36 header)) in
     let d2 := set_addrs d1 s t in
-    if MAX_UDP_IN_PAYLOAD_SIZE <? app_len then Panic else     (* usize subtraction *)
+    (* MAX_UDP_IN_PAYLOAD_SIZE - app_name_length cannot underflow: app_name_length is a u8 *)
     if MAX_UDP_IN_PAYLOAD_SIZE - app_len <? total d2 then
       (if total d2 <? HDR then Panic else Ok (set_st d2 (SDropping (total d2 - HDR)), tail))
     else if HDR + app_len <=? total d2 then
